@@ -113,7 +113,7 @@ static std::string stripDir(const std::string &k)
     return "!" + k;
 }
 
-// run fn in a forked child (alarm 10 s); its text, or CRASH(sig) / TIMEOUT
+// run fn in a forked child (alarm 10 s, 512 KiB stack: unbounded recursion ends quickly); its text, or CRASH(sig) / TIMEOUT
 static std::string guarded(const std::function<std::string()> &fn)
 {
     int fds[2];
@@ -126,7 +126,7 @@ static std::string guarded(const std::function<std::string()> &fn)
         close(fds[0]);
         alarm(10);
         struct rlimit rl;
-        rl.rlim_cur = rl.rlim_max = 1024 * 1024; // stack exhaustion is reached quickly
+        rl.rlim_cur = rl.rlim_max = 512 * 1024; // stack exhaustion is reached quickly
         setrlimit(RLIMIT_STACK, &rl);
         std::string r;
         try {
